@@ -150,6 +150,12 @@ pub fn run(parts: &[String]) -> String {
             "fcteq" => { use subtle::ConstantTimeEq; let b = pop_q(&mut st); let a = pop_q(&mut st); return format!("{}", bool::from(a.ct_eq(&b))) }
             "feq" => { let b = pop_q(&mut st); let a = pop_q(&mut st); return format!("{}", a == b) }
             "fcmp" => { let b = pop_q(&mut st); let a = pop_q(&mut st); return format!("{:?}", a.cmp(&b)) }
+            "sqrtcheck" => { let d = pop_q(&mut st); let n = pop_q(&mut st); let (w, y) = crate::cmds::sqrt_ratio(&n, &d);
+                let zeta = decaf377::ZETA;
+                let ok = if n == Fq::ZERO { w && y == Fq::ZERO } else if d == Fq::ZERO { !w && y == Fq::ZERO }
+                         else if w { y * y * d == n } else { y * y * d == zeta * n };
+                // squareness: w must be true iff n/d is a square; if a root of n/d exists the routine must have found it (checked through the contract: (false, y) with y^2 d = zeta n excludes squareness since zeta is a non-square)
+                return format!("{}", if ok { "ok".to_string() } else { format!("bad flag={} y={}", w, h(&y.to_bytes_le())) }) }
             "sqrtratio" => { let d = pop_q(&mut st); let n = pop_q(&mut st); let (w, y) = crate::cmds::sqrt_ratio(&n, &d); return format!("{} {}", w, h(&y.to_bytes_le())) }
             "checked" => {
                 let b = unhex(arg);
